@@ -1,7 +1,7 @@
 #!/bin/bash
-# usage: tools/confirm_seed.sh <ID>   (expects /tmp/wt_<ID> worktree and /tmp/seed_<ID>/{patch.diff,demo.py})
+# usage: tools/confirm_seed.sh <ID> [suite|nosuite] [round]  (expects /tmp/wt_<ID> worktree and /tmp/seed_<ID>/{patch.diff,demo.py})
 # confirms: patch applies to a clean worktree, demo fails with it and passes without, pinned test-suite passes with it.
-ID=$1; WT=/tmp/wt_$ID; SD=/tmp/seed_$ID
+ID=$1; R=${3:-}; WT=/tmp/wt${R}_$ID; SD=/tmp/seed${R}_$ID   # R: round suffix, e.g. 2 -> /tmp/wt2_<ID>, /tmp/seed2_<ID>
 cd $WT || exit 2
 git checkout -q -- . ; git clean -qfd -e .pytest_cache >/dev/null 2>&1
 PYTHONPATH=$WT/src /venv/bin/python $SD/demo.py > $SD/demo_clean.out 2>&1; c=$?
